@@ -161,6 +161,9 @@ def effect_scripts():
     out.append((pre + 's := $"${next()} ${next()}" + $"${next()} ${next()}"\nprint(s)\n', "sa sbsc sd\n"))
     out.append((pre + 'print($"${next()}${1}")\n', ""))       # a failing slot: the earlier slot has run, nothing is printed
     out.append((pre + 'xs := [$"${next()}", $"${next()}", $"${next()}"]\nprint(xs == ["sa", "sb", "sc"])\n', "true\n"))
+    # `+=` concatenates in operand order on every kind of target
+    out.append(('o := {"g": "Hello, "}\no.g += "wörld"\nprint(o.g)\nprint(o.g == ("Hello, " + "wörld"))\nxs := ["é"]\nxs[0] += "€"\nprint(xs[0])\n'
+                'o["g"] += $"${xs[0]}!"\nprint(o["g"])\ns := "a"\ns += "b"\nprint(s)\n', "Hello, wörld\ntrue\né€\nHello, wörldé€!\nab\n"))
     # nested literals sit at the same offset inside their slots (a slot is lexed on its own, from 1:1): each is its own
     out.append(('g := "héllo"\nn := "wörld"\nprint($"${ $"${g}" }, ${ $"${n}" }!")\n', "héllo, wörld!\n"))
     out.append(('fn tag(t) { r := "<" + t + ">"; return r; }\nx := "x"\ny := "y"\nprint($"1: ${ tag($"${x}") }")\nprint($"2: ${ tag($"${y}") }")\n'
